@@ -3,7 +3,6 @@ ENGINES = [
  {"name":"cluster-sim (macro-step)","path":"/verif/sim","serves_properties":["C01","C03","C04","C06","C07","C09","C10","C11"],"kind_free_text":"deterministic discrete-event simulation: real parties and routers in a testing/synctest bubble, one scheduler-chosen event per quiescence, seeded delivery policies and fault injection"},
 ]
 PENDING = {
- "C04":"check under construction in this session (planned: wire-adversary fault enumeration, DESIGN.md section 3)",
  "C06":"check under construction in this session (planned: history simulation, DESIGN.md section 3)",
  "C07":"check under construction in this session (planned: paired replay on the randomness seam, DESIGN.md section 3)",
  "C09":"check under construction in this session (planned: two-party runs with wire faults, DESIGN.md section 3)",
@@ -29,4 +28,9 @@ CHECKS = {
   "design_ref":"DESIGN.md section 3 C01",
   "note":"Trusted: /verif/ref (math/big curve arithmetic, ECDSA, BIP-340, Schnorr verification), Go standard library hashes and crypto/ecdsa, crypto/ed25519, testing/synctest. BLS and Mina are judged semi-independently (library verifier + omniscient algebraic check).",
   "technique":"deterministic simulation with fault injection (seeded schedule/fault search over real signing runners, independent verifier oracle)"},
+ "C04": {"engine":"cluster-sim (macro-step)","level":"fault_enumeration",
+  "text":"Enumeration of single-fault cells (scenario x corrupt party position x message type x recipient x CBOR leaf x operator) derived from the recorded messages of an honest run: each cell re-runs the real runners (real echo broadcast, a parallel untouched session) with one alteration applied on the corrupt party's outgoing link, a broadcast being altered identically in all copies. Oracle: no honest party panics or hangs, every blamed identity is the corrupt one, every accepted signature verifies independently and every accepted shard is self-consistent, and a bound alteration makes an honest party (the recipient for unicasts) reject. The thorough tier visits every cell of every scenario; quick visits an evenly spread subset.",
+  "design_ref":"DESIGN.md section 3 C04, section 2.5",
+  "note":"Trusted: the binding table (every leaf bound unless justified free), the self-written CBOR tree codec, the reference verifiers. One fault per run, n=3; the corrupt party runs honest code with the deviation applied on the wire, so cells in which that party aborts by itself before the honest checks are reached are counted as inconclusive, not as detected.",
+  "technique":"deterministic simulation with fault injection (exhaustive enumeration of single wire-fault cells over simulated protocol runs)"},
 }
